@@ -146,6 +146,9 @@ def dds_hash(x: Any) -> PyHash:
             # TODO: this is not entirely accurate. The error message will show a 'list' type, but it is actually
             # a dataclass.
             check_len(names)
+            if not names:
+                # A dataclass without fields must not hash like the empty sequence.
+                return _algo_bytes(b"\xffdataclass()")
             vals = [_dds_hash(getattr(elt, n), n) for n in names]
             return _dds_hash(
                 [_hash_dict_tuple(name, h) for (name, h) in zip(names, vals)], None
